@@ -6,13 +6,20 @@ import RucteProofs.SrcTreeInduction
 # C15 (whole tree) — the model parser is complete for the documented body syntax, and layout is irrelevant
 
 `Src.Node` (in `RucteProofs/SrcTree.lean`) is a source tree of the documented template body syntax with an
-explicit layout slot at every place where the grammar allows insignificant material.  Proved here, by
-the induction over the tree in `RucteProofs/SrcTreeInduction.lean`:
+explicit layout slot at every place where the grammar allows insignificant material.  Every Rust
+fragment is a documented expression (`C05.DExpr`, `RucteProps/C05Chain.lean`): `@expression` nodes, Rust
+arguments of calls, the `@match` scrutinee and arm patterns; the `@for` loop variable (`Src.ForPat`: name
+with optional `{..}`, or `&`? `(` expressions `)`) and iterable (`Src.LoopExpr`: expression or range);
+the `@if` condition (`Src.Cond`: `let` binding or logic expression) — `RucteProofs/SrcFrag.lean`,
+`RucteProofs/SrcCond.lean`.  Proved here, by the induction over the tree in
+`RucteProofs/SrcTreeInduction.lean`:
 
 * `nodes_complete`  — the `many_till` loop of the model parses the print of every well-formed list of
   nodes to exactly the intended tree (`block_complete` for `{ … }`, `body_complete` for a template body);
-* `layout_irrelevant_tree` — two well-formed trees that differ only in their layout slots are parsed to
-  the same tree;
+* `layout_irrelevant_tree` — two well-formed trees that differ only in their layout slots (those that are
+  not inside a logic condition of `@if`, whose text the parser stores verbatim) are parsed to the same tree;
+* `cond_inner_layout` — two conditions that differ only in their inner layout are stored as the same
+  token sequence, each woven with its own layout;
 * `no_swallow_after_block` — a node stops exactly at its last byte (e.g. the closing brace of its
   block) and what follows is parsed as itself (C03).
 -/
@@ -96,10 +103,73 @@ theorem no_swallow_after_block (x : Node) (r : List Node) (follow : Bytes) (n : 
   simp only [fuelNodes] at hfuel
   exact ⟨hp.1, fun fin rest o hfin hfail => nodes_complete fin r follow rest o n hwf.2 (by omega) hfin hfail⟩
 
-/-! ## a concrete tree: the hypotheses are satisfiable, and the parser evaluates to the intended tree -/
+/-! ## the Rust fragments of the directives (proved in `RucteProofs/SrcFrag.lean`, `RucteProofs/SrcCond.lean`) -/
+
+/-- **`@for` loop variable**: a name with optional `{..}`, or `&`? `(` expressions separated by `,` and
+spaces `)`, is taken in full — after a bare name the next byte must end the name and must not be `{` — and
+the stored value is the name verbatim / the tuple with its items re-joined by `", "` -/
+theorem for_pattern_complete (p : ForPat) (hw : p.wf = true) (n : Nat) (hn : p.fuel ≤ n) (tail : Bytes)
+    (ht : p.bare = true → ∀ c r, tail = c :: r → C05.isNameChar c = false ∧ c ≠ 123) :
+    forPatP n (p.print ++ tail) = .ok tail p.value :=
+  ForPat.complete p hw n hn tail ht
+
+/-- **`@for` iterable**: an expression, or `lo..hi` / `lo..=hi`, in front of layout; stored verbatim -/
+theorem loop_expression_complete (it : LoopExpr) (hw : it.wf = true) (n : Nat) (hn : it.fuel ≤ n) (tail : Bytes)
+    (ht : C15.StartsLayout tail) : loopExpression n (it.print ++ tail) = .ok tail it.print :=
+  LoopExpr.complete it hw n hn tail ht
+
+/-- **`@if` condition**: `let` La lhs Lb `=` Lc rhs (stored as `let lhs = rhs`), or a logic expression
+`!`? expression (layout operator layout logic-expression)? (stored verbatim, inner layout included), in
+front of a non-empty layout and `{` -/
+theorem cond_expression_complete (c : Cond) (hw : c.wf = true) (n : Nat) (hn : c.fuel ≤ n) (l : Layout) (r : Bytes)
+    (hl : LayoutOk l) (hne : l ≠ []) :
+    condExpression n (c.print ++ (C15.printLayout l ++ 123 :: r)) = .ok (C15.printLayout l ++ 123 :: r) c.value :=
+  Cond.complete c hw n hn l r hl hne
+
+/-- the dispatcher after `@` hands the text to `expression` exactly when `dispatchB` holds -/
+theorem dispatch_exact (n : Nat) (b : UInt8) (X : Bytes) (h : dispatchB (b :: X) = true) :
+    templateExpression (n + 1) (64 :: b :: X) = pmap (expression n) TExpr.expr (b :: X) :=
+  templateExpression_expr n b X h
+
+/-- **layout inside a condition** is part of the stored text (a logic expression is recognised as a span):
+two conditions that differ only in their inner layout (`Cond.strip` empties it) are both taken in full,
+and the stored texts are *the same tokens* (`c₁.tokens`), woven with the layout of each (`Cond.gaps`);
+for a `let` binding the stored text is normalised, so the two are equal -/
+theorem cond_inner_layout (c₁ c₂ : Cond) (hs : c₁.strip = c₂.strip) (hw₁ : c₁.wf = true) (hw₂ : c₂.wf = true)
+    (n : Nat) (hn : c₁.fuel ≤ n) (l : Layout) (r : Bytes) (hl : LayoutOk l) (hne : l ≠ []) :
+    condExpression n (c₁.print ++ (C15.printLayout l ++ 123 :: r))
+      = .ok (C15.printLayout l ++ 123 :: r) (weave c₁.tokens c₁.gaps) ∧
+    condExpression n (c₂.print ++ (C15.printLayout l ++ 123 :: r))
+      = .ok (C15.printLayout l ++ 123 :: r) (weave c₁.tokens c₂.gaps) := by
+  refine ⟨?_, ?_⟩
+  · rw [← c₁.value_weave]
+    exact Cond.complete c₁ hw₁ n hn l r hl hne
+  · rw [Cond.tokens_of_strip hs, ← c₂.value_weave]
+    exact Cond.complete c₂ hw₂ n (by rw [← Cond.fuel_of_strip hs]; exact hn) l r hl hne
+
+/-- the same for a whole `@if` node: the two parse trees differ only in the stored condition, which is the
+same token sequence woven with the inner layout of each -/
+theorem if_inner_layout (l₁ l₂ : Layout) (c₁ c₂ : Cond) (body : List Node) (follow : Bytes) (n : Nat)
+    (hs : c₁.strip = c₂.strip)
+    (h₁ : WFNode (.ifNode (.last l₁ c₁ l₂ body)) follow) (h₂ : WFNode (.ifNode (.last l₁ c₂ l₂ body)) follow)
+    (hn : fuelNode (.ifNode (.last l₁ c₁ l₂ body)) ≤ n) :
+    templateExpression n (printNode (.ifNode (.last l₁ c₁ l₂ body)) ++ follow)
+      = .ok follow (.ifBlock (weave c₁.tokens c₁.gaps) (astNodes body) none) ∧
+    templateExpression n (printNode (.ifNode (.last l₁ c₂ l₂ body)) ++ follow)
+      = .ok follow (.ifBlock (weave c₁.tokens c₂.gaps) (astNodes body) none) := by
+  have hf : fuelNode (.ifNode (.last l₁ c₂ l₂ body)) = fuelNode (.ifNode (.last l₁ c₁ l₂ body)) := by
+    simp [fuelNode, fuelChain, Cond.fuel_of_strip hs]
+  refine ⟨?_, ?_⟩
+  · have := node_ok _ follow n h₁ hn
+    simpa [astNode, astChain, c₁.value_weave] using this
+  · have := node_ok _ follow n h₂ (by rw [hf]; exact hn)
+    simpa [astNode, astChain, c₂.value_weave, Cond.tokens_of_strip hs] using this
+
+/-! ## concrete trees: the hypotheses are satisfiable, and the parser evaluates to the intended tree -/
 
 section Examples
 open Ructe.C15
+open Ructe.C05 (nm num pl sl)
 
 -- Boolean equality of parse trees (for `#guard`)
 mutual
@@ -145,34 +215,47 @@ def sp : Layout := [.ws [32]]
 def nl : Layout := [.ws [10, 32, 32]]
 def cm : Layout := [.comment (str " note ")]
 
+/-- a name as an expression -/
+def nmE (s : String) : C05.DExpr := .last .none (nm s) []
+/-- a number as an expression -/
+def numE (s : String) : C05.DExpr := .last .none (num s) []
+/-- `name(group)` -/
+def callE (s g : String) : C05.DExpr := .last .none (nm s) [.call (pl g)]
+/-- a name as a condition -/
+def cnd (s : String) : Cond := .logic (.last none (nmE s))
+/-- a name as a loop variable -/
+def pv (s : String) : ForPat := match str s with | b :: cs => .name b cs none | [] => .name 95 [] none
+/-- a name as an iterable -/
+def it (s : String) : LoopExpr := .single (nmE s)
+
 /-- `<p>@* hi *@@for x in xs @*c*@{⏎  @if a {@x } else {@@}⏎}@:fo(a, {b@y},c)@match m { A => {1}⏎B=>{}⏎}</p>⏎` -/
 def ex1 : List Node :=
   [ .text (str "<p>"),
     .comment (str " hi "),
-    .forIn [] 120 [] sp sp 120 [115] [.ws [32], .comment (str "c")]
+    .forIn [] (pv "x") sp sp (it "xs") [.ws [32], .comment (str "c")]
       [ .text (str "\n  "),
-        .ifNode (.els [] 97 [] sp [.name 120 [], .text (str " ")] sp sp [.escAt]),
+        .ifNode (.els [] (cnd "a") sp [.name 120 [], .text (str " ")] sp sp [.escAt]),
         .text (str "\n") ],
-    .call 102 [111] [.rust [] 97 [], .block sp [.text (str "b"), .name 121 []] [], .rust [] 99 []],
-    .matchOn [] 109 [] sp [.mk sp 65 [] sp sp [.text (str "1")], .mk [.ws [10]] 66 [] [] [] []] [.ws [10]],
+    .call 102 [111] [.rust [] (nmE "a"), .block sp [.text (str "b"), .name 121 []] [], .rust [] (nmE "c")],
+    .matchOn [] (nmE "m") sp [.mk sp (nmE "A") sp sp [.text (str "1")], .mk [.ws [10]] (nmE "B") [] [] []] [.ws [10]],
     .text (str "</p>\n") ]
 
 /-- the same tree with other layout at every slot -/
 def ex1' : List Node :=
   [ .text (str "<p>"),
     .comment (str " hi "),
-    .forIn cm 120 [] nl (cm ++ sp) 120 [115] nl
+    .forIn cm (pv "x") nl (cm ++ sp) (it "xs") nl
       [ .text (str "\n  "),
-        .ifNode (.els sp 97 [] cm [.name 120 [], .text (str " ")] [] nl [.escAt]),
+        .ifNode (.els sp (cnd "a") cm [.name 120 [], .text (str " ")] [] nl [.escAt]),
         .text (str "\n") ],
-    .call 102 [111] [.rust [] 97 [], .block [] [.text (str "b"), .name 121 []] nl, .rust (nl ++ cm) 99 []],
-    .matchOn sp 109 [] cm [.mk [] 65 [] [] cm [.text (str "1")], .mk sp 66 [] nl sp []] [],
+    .call 102 [111] [.rust [] (nmE "a"), .block [] [.text (str "b"), .name 121 []] nl, .rust (nl ++ cm) (nmE "c")],
+    .matchOn sp (nmE "m") cm [.mk [] (nmE "A") [] cm [.text (str "1")], .mk sp (nmE "B") nl sp []] [],
     .text (str "</p>\n") ]
 
 /-- `@if a {1} else if b {2}@*c*@else {3}@foo(x, "s{")@(1 + 2): @y.` -/
 def ex2 : List Node :=
-  [ .ifNode (.elif [] 97 [] sp [.text (str "1")] sp sp
-      (.els sp 98 [] sp [.text (str "2")] cm sp [.text (str "3")])),
+  [ .ifNode (.elif [] (cnd "a") sp [.text (str "1")] sp sp
+      (.els sp (cnd "b") sp [.text (str "2")] cm sp [.text (str "3")])),
     .nameCall 102 [111, 111] [.plain 120, .plain 44, .plain 32, .str [.plain 115, .plain 123]],
     .paren [.plain 49, .plain 32, .plain 43, .plain 32, .plain 50],
     .text (str ": "),
@@ -195,15 +278,78 @@ example : parseBody (fuelNodes ex1) (printNodes ex1) = .ok [] (astNodes ex1, ())
 #guard printNodes ex1 ==
   str "<p>@* hi *@@for x in xs @*c*@{\n  @if a {@x } else {@@}\n}@:fo(a, {b@y},c)@match m { A => {1}\nB=>{}\n}</p>\n"
 #guard printNodes ex2 == str "@if a {1} else if b {2}@* note *@else {3}@foo(x, \"s{\")@(1 + 2): @y."
-#guard fuelNodes ex1 == 10 && fuelNodes ex1' == 10
+#guard fuelNodes ex1 == 9 && fuelNodes ex1' == 9
+
+/-! ### general Rust fragments -/
+
+/-- `a.is_empty()` -/
+def eIsEmpty : C05.DExpr := .link .none (nm "a") [] .dot (.last .none (nm "is_empty") [.call []])
+/-- `xs.iter().enumerate()` -/
+def eEnum : C05.DExpr :=
+  .link .none (nm "xs") [] .dot (.link .none (nm "iter") [.call []] .dot (.last .none (nm "enumerate") [.call []]))
+/-- `items.len()` -/
+def eLen : C05.DExpr := .link .none (nm "items") [] .dot (.last .none (nm "len") [.call []])
+/-- `!a.is_empty() && n >= 2` -/
+def cLogic : Cond :=
+  .logic (.op (some []) eIsEmpty sp .and sp (.op none (nmE "n") sp .ge sp (.last none (numE "2"))))
+/-- `let Some(x) = opt` -/
+def cLet : Cond := .letBind sp (callE "Some" "x") sp sp (nmE "opt")
+def blank : List Node := [.text (str " ")]
+
+/-- `@a.b(c)[0]@if !a.is_empty() && n >= 2 { }@if let Some(x) = opt { }@for (i, x) in xs.iter().enumerate() { }`
+`@for i in 0..n { }@match r { Ok(v) => { } Err(e) => { } }@:page(&title, items.len(), { body })` -/
+def exRust : List Node :=
+  [ .expr C05.exChain,
+    .ifNode (.last [] cLogic sp blank),
+    .ifNode (.last [] cLet sp blank),
+    .forIn [] (.tuple false [(0, nmE "i"), (1, nmE "x")]) sp sp (.single eEnum) sp blank,
+    .forIn [] (pv "i") sp sp (.range (numE "0") false (nmE "n")) sp blank,
+    .matchOn [] (nmE "r") sp [.mk sp (callE "Ok" "v") sp sp blank, .mk sp (callE "Err" "e") sp sp blank] sp,
+    .call 112 (str "age") [.rust [] (.last .amp (nm "title") []), .rust sp eLen, .block sp [.text (str " body ")] []] ]
+
+example : WF exRust [] := by unfold exRust; src_wf
+#guard agrees exRust
+#guard printNodes exRust == str ("@a.b(c)[0]@if !a.is_empty() && n >= 2 { }@if let Some(x) = opt { }" ++
+  "@for (i, x) in xs.iter().enumerate() { }@for i in 0..n { }@match r { Ok(v) => { } Err(e) => { } }" ++
+  "@:page(&title, items.len(), { body })")
+example : parseBody (fuelNodes exRust) (printNodes exRust) = .ok [] (astNodes exRust, ()) :=
+  body_complete exRust _ (by unfold exRust; src_wf) (Nat.le_refl _)
+
+/-- the stored values: a tuple loop variable is normalised (`", "` between the items), a range and a logic
+condition are stored verbatim, a `let` binding is normalised -/
+def exNorm : List Node :=
+  [ .forIn [] (.tuple true [(0, nmE "i"), (3, nmE "x"), (0, nmE "y")]) [] sp (.range (nmE "a") true (callE "f" "b")) sp [],
+    .ifNode (.last [] (.letBind cm (callE "Some" "x") [] nl (nmE "opt")) sp []),
+    .ifNode (.last [] (.logic (.op none (nmE "a") [] .lt cm (.last (some sp) (nmE "b")))) sp []) ]
+example : WF exNorm [] := by unfold exNorm; src_wf
+#guard agrees exNorm
+#guard printNodes exNorm == str "@for &(i,   x,y)in a..=f(b) {}@if let@* note *@Some(x)=\n  opt {}@if a<@* note *@! b {}"
+#guard beqL (astNodes exNorm)
+  [ .forLoop (str "&(i, x, y)") (str "a..=f(b)") [],
+    .ifBlock (str "let Some(x) = opt") [] none,
+    .ifBlock (str "a<@* note *@! b") [] none ]
+-- erasing the layout keeps the inner layout of the logic condition, and nothing else
+#guard printNodes (eraseNodes exNorm) == str "@for &(i,x,y)ina..=f(b){}@if letSome(x)=opt{}@if a<@* note *@! b{}"
+#guard beqL (astNodes (eraseNodes exNorm)) (astNodes exNorm)
+
+/-- inner layout of a condition: `a  ==@*c*@b` and `a==b` are stored as the same tokens `a`, `==`, `b`, woven
+with different layout -/
+def cA : Cond := .logic (.op none (nmE "a") [.ws [32, 32]] .eq [.comment (str "c")] (.last none (nmE "b")))
+def cB : Cond := .logic (.op none (nmE "a") [] .eq [] (.last none (nmE "b")))
+example : cA.strip = cB.strip := rfl
+example : cA.tokens = [str "a", str "==", str "b"] := by decide +kernel
+#guard cA.value == str "a  ==@*c*@b" && cB.value == str "a==b"
+#guard agrees [.ifNode (.last [] cA sp [])] && agrees [.ifNode (.last [] cB sp [])]
+#guard !beqL (astNodes [.ifNode (.last [] cA sp [])]) (astNodes [.ifNode (.last [] cB sp [])])
 
 /-- C03 on a concrete input: the white space and text after the closing brace of `@if a {1}` stay a text
 node of their own (`@if a {1} ⏎ x@@`) -/
-def ex3 : List Node := [.ifNode (.last [] 97 [] sp [.text [49]]), .text [32, 10, 32, 120], .escAt]
+def cndA : Cond := .logic (.last none (.last .none (.name 97 []) []))
+def ex3 : List Node := [.ifNode (.last [] cndA sp [.text [49]]), .text [32, 10, 32, 120], .escAt]
 example : WF ex3 [] := by unfold ex3; src_wf
 example : templateExpression 5 (printNodes ex3) = .ok [32, 10, 32, 120, 64, 64] (.ifBlock [97] [.text [49]] none) :=
-  (no_swallow_after_block (.ifNode (.last [] 97 [] sp [.text [49]])) [.text [32, 10, 32, 120], .escAt] [] 5
-    (by src_wf) (by decide)).1
+  (no_swallow_after_block (.ifNode (.last [] cndA sp [.text [49]])) [.text [32, 10, 32, 120], .escAt] [] 5
+    (by src_wf) (by decide +kernel)).1
 #guard agrees ex3
 
 /-! ### every side condition of `WF` is needed: the model on prints that violate exactly one of them -/
@@ -215,34 +361,87 @@ example : templateExpression 5 (printNodes ex3) = .ok [32, 10, 32, 120, 64, 64] 
 #guard !agrees [.text [], .escAt]
 -- a comment body must not contain `*@`
 #guard !agrees [.comment (str "a*@b")]
--- `@x` followed by `y`: the name continues
+-- `@x` followed by `y`: the name continues (`follows`); `@1` followed by `2`: the number continues
 #guard !agrees [.name 120 [], .text (str "y")]
--- `@x` followed by `.y`: the expression chain continues (`C05.Stops` violated)
+#guard !agrees [.expr (numE "1"), .text (str "2")]
+-- … but after a closing delimiter nothing continues the token: `@f(x)` followed by `y`
+#guard agrees [.expr (callE "f" "x"), .text (str "y")]
+-- `@x` followed by `.y`, `::y`, `(y)`, `[y]`, `{y}` (as escaped text), `!(y)`: the chain continues (`C05.Stops`)
 #guard !agrees [.name 120 [], .text (str ".y")]
--- `@if` followed by a space is the directive, not the name `if`
+#guard !agrees [.name 120 [], .text (str "::y")]
+#guard !agrees [.name 120 [], .text (str "(y)")]
+#guard !agrees [.name 120 [], .text (str "[y]")]
+#guard !agrees [.name 120 [], .text (str "!(y)")]
+-- … whereas `.` + space, a single `:`, `!` + space, `::<` do stop it
+#guard agrees [.name 120 [], .text (str ". ")] && agrees [.name 120 [], .text (str ": ")] &&
+  agrees [.name 120 [], .text (str "! ")] && agrees [.name 120 [], .text (str "::<T>")]
+-- `dispatchB`: `@if` followed by a space is the directive, not the name `if` (but `@iffy`, `@if(x)` are expressions);
+-- `@*x` opens a comment (so a `*` prefix is impossible directly after `@`); `@(a).b` is the `@(` arm: `.b` is text
 #guard !agrees [.name 105 [102], .text (str " x {}")]
+#guard agrees [.expr (nmE "iffy")] && agrees [.expr (callE "if" "x")] && agrees [.expr (nmE "matchx"), .text (str " y")]
+#guard !agrees [.expr (.last .star (nm "x") [])]
+#guard !agrees [.expr (.link .none (.parens (pl "a")) [] .dot (nmE "b"))]
+#guard agrees [.expr (.link .amp (.parens (pl "a")) [] .dot (nmE "b"))]      -- `@&(a).b` is fine
+-- `e.wf`: `@a-b` is not one name
+#guard !agrees [.expr (.last .none (.name 97 [45, 98]) [])]
 -- `@if a{1}`: without layout before `{` the brace is taken into the condition (`l₂ ≠ []`)
-#guard !agrees [.ifNode (.last [] 97 [] [] [.text (str "1")])]
--- a condition that starts with `let`
-#guard !agrees [.ifNode (.last [] 108 [101, 116, 120] sp [])]
+#guard !agrees [.ifNode (.last [] (cnd "a") [] [.text (str "1")])]
+-- a logic condition that starts with `let` (`noLetB`)
+#guard !agrees [.ifNode (.last [] (cnd "letx") sp [])]
+-- a layout slot inside a logic condition must be valid UTF-8 (`innerB`): the span is stored as a string …
+#guard !agrees [.ifNode (.last [] (.logic (.op none (nmE "a") [.comment [255]] .eq [] (.last none (nmE "b")))) sp [])]
+#guard !agrees [.ifNode (.last [] (.logic (.op none (nmE "a") [] .eq [.comment [255]] (.last none (nmE "b")))) sp [])]
+#guard !agrees [.ifNode (.last [] (.logic (.last (some [.comment [255]]) (nmE "b"))) sp [])]
+-- the operators: each is found by the ordered choice (`<` before `<=` would be wrong, `<=` is tried first)
+#guard agrees [.ifNode (.last [] (.logic (.op none (nmE "a") [] .le [] (.op none (nmE "b") [] .lt []
+  (.op none (nmE "c") [] .ne [] (.op (some []) (nmE "d") [] .or [] (.op none (nmE "e") sp .gt sp (.last none (nmE "f"))))))))
+  sp [])]
+-- a `let` binding: an inadmissible layout item (`letxa=b` is the binding of `xa`); `letx = y` *is* `let x = y`
+#guard !agrees [.ifNode (.last [] (.letBind [.ws [120]] (nmE "a") [] [] (nmE "b")) sp [])]
+#guard agrees [.ifNode (.last [] (.letBind [] (nmE "x") sp sp (nmE "y")) sp [])]
+-- … whereas the slots of a `let` binding (not stored) and the slots around the condition may hold any bytes
+#guard agrees [.ifNode (.last [.comment [255]] (.letBind [.comment [255]] (nmE "a") [.comment [255]] [] (nmE "b"))
+  [.comment [255]] [])]
 -- `@if a {1}` followed by the bytes ` else {2}`: taken as the `else` branch (`noElseB`); no well-formed
 -- list of nodes prints a bare `{`, so this needs an explicit `follow`
-#guard (match templateExpression 5 (printNodes [.ifNode (.last [] 97 [] sp [.text (str "1")])] ++ str " else {2}") with
+#guard (match templateExpression 5 (printNodes [.ifNode (.last [] (cnd "a") sp [.text (str "1")])] ++ str " else {2}") with
   | .ok [] (.ifBlock _ _ (some _)) => true | _ => false)
 -- … whereas an `else` that is followed by neither `{` nor `if` is left alone
-#guard agrees [.ifNode (.last [] 97 [] sp [.text (str "1")]), .text (str " else "), .escOpen]
--- `@for x in y{1}` (`l₄ = []`), `@for xin y {1}` (`l₂ = []`)
-#guard !agrees [.forIn [] 120 [] sp sp 121 [] [] [.text (str "1")]]
-#guard !agrees [.forIn [] 120 [] [] sp 121 [] sp [.text (str "1")]]
--- `@match m{}` (`l₁ = []`)
-#guard !agrees [.matchOn [] 109 [] [] [] []]
--- `@:f( a)`: layout directly after `(`
-#guard !agrees [.call 102 [] [.rust sp 97 []]]
+#guard agrees [.ifNode (.last [] (cnd "a") sp [.text (str "1")]), .text (str " else "), .escOpen]
+-- `@for x in y{1}` (`l₄ = []`), `@for xin y {1}` (`l₂ = []` after a bare name)
+#guard !agrees [.forIn [] (pv "x") sp sp (it "y") [] [.text (str "1")]]
+#guard !agrees [.forIn [] (pv "x") [] sp (it "y") sp [.text (str "1")]]
+-- … but after `)` or `}` no layout is needed: `@for (a,b)in y {}`, `@for P{a}in y {}`
+#guard agrees [.forIn [] (.tuple false [(0, nmE "a"), (0, nmE "b")]) [] sp (it "y") sp []]
+#guard agrees [.forIn [] (.name 80 [] (some (pl "a"))) [] sp (it "y") sp []]
+-- `@for ( a, b) in y {}`: no space directly after `(` (`firstTight`)
+#guard !agrees [.forIn [] (.tuple false [(1, nmE "a"), (1, nmE "b")]) sp sp (it "y") sp []]
+-- `wf` of the loop variable and of the iterable: `@for 1x in y {}`, `@for P{}} in y {}`, `@for (a-b) in y {}`,
+-- `@for x in a-b {}`
+#guard !agrees [.forIn [] (.name 49 [120] none) sp sp (it "y") sp []]
+#guard !agrees [.forIn [] (.name 80 [] (some [.plain 125])) sp sp (it "y") sp []]
+#guard !agrees [.forIn [] (.tuple false [(0, .last .none (.name 97 [45, 98]) [])]) sp sp (it "y") sp []]
+#guard !agrees [.forIn [] (pv "x") sp sp (.single (.last .none (.name 97 [45, 98]) [])) sp []]
+-- the empty tuple `()` is a loop variable, and needs fuel 2 for `expression` to refuse `)`
+#guard agrees [.forIn [] (.tuple false []) sp sp (it "y") sp []]
+-- `@match m{}` (`l₁ = []`); `wf` of the scrutinee and of an arm pattern: `@match a-b {}`, `@match m { a-b => {} }`
+#guard !agrees [.matchOn [] (nmE "m") [] [] []]
+#guard !agrees [.matchOn [] (.last .none (.name 97 [45, 98]) []) sp [] []]
+#guard !agrees [.matchOn [] (nmE "m") sp [.mk sp (.last .none (.name 97 [45, 98]) []) sp sp []] sp]
+-- `@:f( a)`: layout directly after `(`; `wf` of a Rust argument: `@:f(a-b)`
+#guard !agrees [.call 102 [] [.rust sp (nmE "a")]]
+#guard !agrees [.call 102 [] [.rust [] (.last .none (.name 97 [45, 98]) [])]]
+-- a Rust argument needs no further side condition: `,` and `)` end every documented expression
+#guard agrees [.call 102 [] [.rust [] (numE "1"), .rust [] (.last .star (.str (sl "s")) []), .rust cm C05.exMisc]]
 -- an inadmissible layout item (an empty white-space run is fine, a non-space byte is not)
-#guard !agrees [.ifNode (.last [.ws [120]] 97 [] sp [])]
--- the fuel bound: one unit less is not enough for `@x.`
+#guard !agrees [.ifNode (.last [.ws [120]] (cnd "a") sp [])]
+-- the fuel bound: one unit less is not enough for `@x.`, `@if !a.is_empty() && n >= 2 { }`, `@for i in 0..n { }`
 #guard fuelNodes [.name 120 [], .text (str ".")] == 4 && agrees [.name 120 [], .text (str ".")]
 #guard (match parseBody 3 (str "@x.") with | .oom => true | _ => false)
+#guard fuelNodes [.ifNode (.last [] cLogic sp blank)] == 7 &&
+  (match parseBody 6 (printNodes [.ifNode (.last [] cLogic sp blank)]) with | .oom => true | _ => false)
+#guard fuelNodes [.forIn [] (pv "i") sp sp (.range (numE "0") false (nmE "n")) sp blank] == 4 &&
+  (match parseBody 3 (str "@for i in 0..n { }") with | .oom => true | _ => false)
 
 end Examples
 
@@ -253,3 +452,11 @@ end Ructe.C15Tree
 #print axioms Ructe.C15Tree.body_complete
 #print axioms Ructe.C15Tree.layout_irrelevant_tree
 #print axioms Ructe.C15Tree.no_swallow_after_block
+#print axioms Ructe.C15Tree.node_complete
+#print axioms Ructe.C15Tree.layout_irrelevant_block
+#print axioms Ructe.C15Tree.cond_inner_layout
+#print axioms Ructe.C15Tree.for_pattern_complete
+#print axioms Ructe.C15Tree.loop_expression_complete
+#print axioms Ructe.C15Tree.cond_expression_complete
+#print axioms Ructe.Src.head_expr_iff
+#print axioms Ructe.C15Tree.if_inner_layout
